@@ -463,6 +463,14 @@ def class_pairs():
                                ("assignment", "int x = 0; x = {1};", "int[] x = {0}; x = {1};"), ("string initialiser", "string t = {\"a\"};", "string[] t = {\"a\"};")]:
         P.append(("array literal where no array is declared", pos, "class A { public constructor() -> A { } }\nfunction main() -> void { %s }" % bad_s,
                   "class A { public constructor() -> A { } }\nfunction main() -> void { %s }" % good_s))
+    # an assignment used as a value carries the type of the assigned value into the position it is written in
+    av = "class A { public int f = 1; public constructor() -> A { } }\nfunction g(string s) -> void { echo(s); }\nfunction main() -> void { qubit q; int i = 0; A a = new A(); int[] v = {1}; %s }"
+    for pos, bad_s, good_s in [("initialiser", "string s = (i = 3);", "long s = (i = 3);"), ("argument", "g(i = 3);", "g(\"\" + (i = 3));"),
+                               ("gate angle", "rx(q, (i = 3));", "rx(q, 3.0f);"), ("initialiser, bit", "bit b = (i = 3);", "int b = (i = 3);"),
+                               ("member assignment as a value", "string s = (a.f = 3);", "int s = (a.f = 3);"),
+                               ("element assignment as a value", "boolean s = (v[0] = 3);", "int s = (v[0] = 3);"),
+                               ("return", "return (i = 3);", "i = 3; return;"), ("chained", "string s = \"\"; s = i = 3;", "long s = 0L; s = i = 3;")]:
+        P.append(("a value of the wrong type through an assignment expression", pos, av % bad_s, av % good_s))
     return P
 
 
